@@ -201,6 +201,21 @@ Example C17_no_fields_not_a_point :
   wfb cfg r = false /\ format cfg r = Ok (s "m " ++ [10]) /\ lp_parse (s "m " ++ [10]) = None.
 Proof. vm_compute. repeat split; reflexivity. Qed.
 
+Example C17_nonfinite_float_not_expressible :
+  (* float("inf") is printed as  inf , which is neither a numeral nor a boolean *)
+  let cfg := mkCfg TagsNone None in
+  let r := mkRec (s "m") [(s "a", VFloat (s "inf"))] 0 in
+  wfb cfg r = false /\ format cfg r = Ok (s "m a=inf" ++ [10]) /\ lp_parse (s "m a=inf" ++ [10]) = None.
+Proof. vm_compute. repeat split; reflexivity. Qed.
+
+Example C17_empty_tag_value_and_comment_not_expressible :
+  let cfg := mkCfg (TagsIter [s "t"]) None in
+  let r := mkRec (s "m") [(s "t", VStr []); (s "f", VInt 1)] 0 in
+  wfb cfg r = false /\ format cfg r = Ok (s "m,t= f=1" ++ [10]) /\ lp_parse (s "m,t= f=1" ++ [10]) = None
+  /\ wfb (mkCfg TagsNone None) (mkRec (s "#m") [(s "f", VInt 1)] 0) = false
+  /\ lp_parse (s "#m f=1" ++ [10]) = None.
+Proof. vm_compute. repeat split; reflexivity. Qed.
+
 Example C17_colliding_key_is_dropped :
   (* a record key named like a LogRecord attribute is neither a tag nor a field *)
   let cfg := mkCfg TagsNone None in
